@@ -265,7 +265,7 @@ def run(ctx):
     sc.loglevel_check(ctx, recs, ("probs",), 25 if ctx.quick else 250, "c01")
     sc.optimize_check(ctx, recs, ("probs",), 25 if ctx.quick else 250, "c01")
     sc.resolve_check(ctx, recs, ("probs",), 30 if ctx.quick else 300, "c01")
-    sc.late_edit_check(ctx, recs, ("probs",), 20 if ctx.quick else 200, "c01")
+    sc.late_edit_check(ctx, recs, ("probs",), 40 if ctx.quick else 300, "c01")
     check_values(ctx, recs)
     other_thresholds(ctx, games)
     exact_vs_float(ctx, recs)
